@@ -886,9 +886,9 @@ func Run(c *fw.Ctx) {
 	for i := 0; i < nconf; i++ {
 		cs := genCase(r, i)
 		cs.Name = fmt.Sprintf("cfg%d", i)
-		cs.Rounds = c.N(3, 5)
-		cs.TxsPerRound = c.N(100, 400)
-		cs.Probes = c.N(300, 600)
+		cs.Rounds = c.N(3, 4)
+		cs.TxsPerRound = c.N(100, 250)
+		cs.Probes = c.N(300, 400)
 		if only := os.Getenv("VERIF_C04_ONLY"); only != "" && only != cs.Name {
 			continue // development aid: run a single configuration
 		}
